@@ -712,7 +712,19 @@ class Engine(Conc, Executor, Calls):
         if self.cur is None or self.quiet or not isinstance(p, PtrV):
             return
         key = ("atomic_loaded", str(p.cell), tuple(p.path))
+        wkey = ("atomic_updated", str(p.cell), tuple(p.path))
+        if what in ("add", "store"):
+            st.ghost[wkey] = True
         if what == "load":
+            # the mirror image: a Load after this activation's own Add / Store does not read back "its" value - another goroutine's update
+            # may have landed in between (two callers of a counter then see the same number); the value to use is the one Add returned
+            o = self.obl("ownership", "atomic-rmw", self.own_props())
+            o.instances += 1
+            if st.ghost.get(wkey):
+                o.failed.append({"pos": ins.get("pos"), "reason": "atomic Load of a cell this activation updated before (Add / Store): the value read back is not the one this "
+                                                                  "activation produced when another goroutine updates the cell in between (use the result of Add)"})
+            else:
+                o.proved += 1
             st.ghost[key] = True
         elif what == "store":
             o = self.obl("ownership", "atomic-rmw", self.own_props())
